@@ -55,12 +55,43 @@ def _frame(case):
     def bad(kind, msg):
         viol.append({"sig": "build_ts_X_y|%s|same_rows=%s" % (kind, same), "msg": msg})
 
-    y = numpy.arange(n, dtype=numpy.float64)
-    X = None
+    from checks.catalog import layouts
+    y_c = numpy.arange(n, dtype=numpy.float64)
+    X_c = None
     if ncol:
-        X = numpy.array([[1000 + 100 * c + t for c in range(ncol)] for t in range(n)],
-                        dtype=numpy.float64).reshape(n, ncol)
-    w = numpy.arange(n, dtype=numpy.float64) + 2000 if case["weights"] else None
+        X_c = numpy.array([[1000 + 100 * c + t for c in range(ncol)] for t in range(n)],
+                          dtype=numpy.float64).reshape(n, ncol)
+    w_c = numpy.arange(n, dtype=numpy.float64) + 2000 if case["weights"] else None
+    nrow = n - delay2 - past + 2
+    # memory layouts of the same series / table / weights: the statement is about values
+    pair = {"column of a C-ordered table": "Fortran order", "every second element": "strided window of a larger table",
+            "negative stride": "negative strides", "read-only": "read-only"}
+    variants = [("C", y_c, X_c, w_c)]
+    ly = dict(layouts(y_c))
+    lx = dict(layouts(X_c)) if X_c is not None else {}
+    lw = dict(layouts(w_c)) if w_c is not None else {}
+    for nm1, nm2 in pair.items():
+        variants.append(("y " + nm1, ly[nm1], X_c, w_c))
+        if X_c is not None or w_c is not None:
+            variants.append(("y, X, weights " + nm1, ly[nm1], lx.get(nm2), lw.get(nm1)))
+    if X_c is not None:
+        variants.append(("X transposed window", y_c, lx["transposed window"], w_c))
+    sample = None
+    for lay, y, X, w in variants:
+        r = _frame_one(case, lay, y, X, w, bad, numpy, BaseTimeSeries, build_ts_X_y)
+        if lay == "C":
+            sample = r
+    return {"viol": viol, "nontrivial": nrow > 0, "transitions": max(nrow, 1) * len(variants),
+            "outcome": (nrow, past, delay2, ncol), "sample": sample}
+
+
+def _frame_one(case, lay, y, X, w, bad0, numpy, BaseTimeSeries, build_ts_X_y):
+    n, past, delay2, ncol = case["n"], case["past"], case["delay2"], case["ncol"]
+    same = case["same_rows"]
+
+    def bad(kind, msg):
+        bad0(kind if lay == "C" else kind + "|layout: " + lay, msg + ("" if lay == "C" else " [layout: %s]" % lay))
+
     y0, X0, w0 = y.copy(), None if X is None else X.copy(), None if w is None else w.copy()
     model = BaseTimeSeries(past=past, delay1=1, delay2=delay2, use_all_past=False)
     nrow = n - delay2 - past + 2
@@ -68,7 +99,7 @@ def _frame(case):
         nx, ny, nw = build_ts_X_y(model, X, y, w, same_rows=same)
     except Exception as e:
         bad("raises", "%s: %s on %r" % (type(e).__name__, e, case))
-        return {"viol": viol, "nontrivial": nrow > 0}
+        return None
     if not (numpy.array_equal(y, y0) and (X is None or numpy.array_equal(X, X0))
             and (w is None or numpy.array_equal(w, w0))):
         bad("input modified", repr(case))
@@ -76,7 +107,7 @@ def _frame(case):
     if nx.shape != (exp_rows, ncol + past) or ny.shape != (exp_rows, delay2 - 1):
         bad("shape", "X %r y %r expected rows %d, cols %d/%d" % (nx.shape, ny.shape, exp_rows,
                                                                   ncol + past, delay2 - 1))
-        return {"viol": viol, "nontrivial": nrow > 0}
+        return None
     first = exp_rows - nrow
     if same:
         if first and not (numpy.isnan(nx[:first]).all() and numpy.isnan(ny[:first]).all()):
@@ -112,9 +143,9 @@ def _frame(case):
         bad("weights", "weights invented")
     if w is not None and same and (nw is None or len(nw) != n):
         bad("weights", "same_rows weights length")
-    return {"viol": viol, "nontrivial": nrow > 0, "transitions": max(nrow, 1),
-            "outcome": (nrow, past, delay2, ncol),
-            "sample": {"X": nx[:3].tolist(), "y": ny[:3].tolist()}}
+    return {"X": nx[:3].tolist(), "y": ny[:3].tolist()}
+
+
 
 
 def _mape(case):
@@ -130,6 +161,7 @@ def _mape(case):
     def bad(kind, msg):
         viol.append({"sig": "ts_mape|%s" % kind, "msg": msg})
 
+    from checks.catalog import layouts
     weights = [None, numpy.arange(1, n + 1, dtype=numpy.float64)]
     for p in itertools.product((0.0, 1.0, 2.0, float("nan")), repeat=n):
         pred = numpy.array(p, dtype=numpy.float64)
@@ -140,6 +172,14 @@ def _mape(case):
             except Exception as e:
                 bad("raises %s" % type(e).__name__, "%s y=%r pred=%r w=%s" % (e, case["y"], p, w is not None))
                 continue
+            if n <= 4:
+                for (ln, yl), (_, pl) in zip(layouts(y)[1:], layouts(pred)[1:]):
+                    try:
+                        vl = ts_mape(yl, pl, sample_weight=w)
+                        if repr(vl) != repr(v):
+                            bad("value depends on the memory layout", "y=%r pred=%r layout %s: %r vs %r" % (case["y"], p, ln, vl, v))
+                    except Exception as e:
+                        bad("raises %s on a non-contiguous input" % type(e).__name__, "%s y=%r pred=%r layout %s" % (e, case["y"], p, ln))
             try:
                 f = float(v)
             except Exception:
@@ -169,6 +209,11 @@ def _mape(case):
                 if abs(v - 1) > 1e-12:
                     bad("naive forecast != 1", "y=%r pred=%r -> %r" % (case["y"], pred.tolist(), v))
     return {"viol": viol, "nontrivial": nonconst, "transitions": cnt, "outcome": ("mape", n)}
+
+
+def copy_unfitted(m):
+    import copy
+    return copy.deepcopy(m)
 
 
 def _regressor(case):
@@ -202,6 +247,7 @@ def _regressor(case):
                     ok = ~(numpy.isnan(X).any(axis=1) | numpy.isnan(y).any(axis=1))
                     return LinearRegression.fit(self, X[ok], y[ok].ravel())
             m.estimator = _LR()
+        m0 = copy_unfitted(m)
         m.fit(X, y)
         base = numpy.asarray(m.predict(X, y), dtype=float).ravel()
     except Exception as e:
@@ -211,6 +257,23 @@ def _regressor(case):
     if len(base) != n:
         viol.append({"sig": "ARTimeSeriesRegressor|length", "msg": "%d predictions for %d rows" % (len(base), n)})
         return {"viol": viol}
+    # the same series and exogenous table behind other memory layouts: same model, same predictions
+    from checks.catalog import layouts
+    import copy
+    for (ln, yl), (lxn, Xl) in zip(layouts(y)[1:], [l for l in layouts(X) if l[0] != "transposed window"][1:]):
+        try:
+            m2 = copy.deepcopy(m0)
+            m2.fit(Xl, yl)
+            pl = numpy.asarray(m2.predict(Xl, yl), dtype=float).ravel()
+            cnt += 1
+            if pl.shape != base.shape or not numpy.array_equal(pl, base, equal_nan=True):
+                viol.append({"sig": "ARTimeSeriesRegressor|prediction depends on the memory layout of the series|%s" % case["est"],
+                             "msg": "layout %s: %r vs %r" % (ln, pl.tolist(), base.tolist())})
+                break
+        except Exception as e:
+            viol.append({"sig": "ARTimeSeriesRegressor|raises on a non-contiguous series|%s" % case["est"],
+                         "msg": "%s: %s layout %s %r" % (type(e).__name__, e, ln, case)})
+            break
     for t in range(n):
         y2 = y.copy()
         y2[t:] += 100.0
